@@ -132,8 +132,66 @@ def generate_member(g, mol, ns, skel, first=None):
     targets = [(n - 0.5) * m for n, m in zip(ns, masses)]
     gen.install_observers(g, gen.Observer())
     gen.DRAW_FN[0] = gen.scripted_draw(targets)
-    r = mol.generate(rng=FirstPossibleRng(first))
+    saved = gen.OBS[0]
+    gen.OBS[0] = gen.Observer()  # residues and inter-residue bonds of the member are tracked (outside_variants)
+    try:
+        r = mol.generate(rng=FirstPossibleRng(first))
+    finally:
+        gen.OBS[0] = saved
+    LAST_MEMBER[0] = r
     return r.smiles, masses
+
+
+LAST_MEMBER = [None]
+VARIANTS = {}
+
+
+def outside_variants(g, member, skel):
+    """molecules that differ from a member of the ensemble by something no generation can produce:
+    'bond-order': one bond BETWEEN two residues (always single here) raised to a double bond;
+    'no-terminal': the last, plain one-atom token is missing (its element occurs in no repeat unit).
+    Returned: list of (kind, SMILES); empty where the skeleton does not allow a safe construction."""
+    out = []
+    bonds = list(getattr(member, "_sx_bonds", []))
+    residues = list(getattr(member, "_sx_residues", []))
+    if not bonds or not residues:
+        return out
+    base = Chem.Mol(member._mol)
+    try:
+        Chem.SanitizeMol(base)
+    except Exception:
+        return out
+    if not any(ch in u for u in skel["units"] for ch in "=#"):
+        for (a, b, t) in bonds:
+            x, y = base.GetAtomWithIdx(int(a)), base.GetAtomWithIdx(int(b))
+            if int(t) == 1 and x.GetSymbol() == "C" and y.GetSymbol() == "C" and x.GetTotalNumHs() >= 1 and y.GetTotalNumHs() >= 1:
+                rw = Chem.RWMol(base)
+                rw.GetBondBetweenAtoms(int(a), int(b)).SetBondType(Chem.BondType.DOUBLE)
+                try:
+                    m2 = rw.GetMol()
+                    Chem.SanitizeMol(m2)
+                    out.append(("bond-order", Chem.MolToSmiles(m2)))
+                except Exception:
+                    pass
+                break
+    tok, lo, hi = residues[-1]
+    tok = tok.obj
+    unit_elems = set()
+    for u in skel["units"]:
+        mu = Chem.MolFromSmiles(gendrive._BD.sub("", u))
+        unit_elems |= {a.GetSymbol() for a in mu.GetAtoms()} if mu is not None else set()
+    if hi - lo == 1 and hi == base.GetNumAtoms() and not hasattr(tok, "repeat_tokens"):
+        at = base.GetAtomWithIdx(lo)
+        if at.GetDegree() == 1 and at.GetSymbol() not in unit_elems and at.GetSymbol() != "H":
+            rw = Chem.RWMol(base)
+            rw.RemoveAtom(lo)
+            try:
+                m2 = rw.GetMol()
+                Chem.SanitizeMol(m2)
+                out.append(("no-terminal", Chem.MolToSmiles(m2)))
+            except Exception:
+                pass
+    return out
 
 
 def _foreign(smi):
@@ -167,6 +225,7 @@ def run_case(case, g, tier, res):
     def h(c):
         mol_plain = g.Molecule(text)
         smi, masses = generate_member(g, mol_plain, ns, skel)
+        VARIANTS[(skel["name"], tuple(ns))] = outside_variants(g, LAST_MEMBER[0], skel)
         mol = g.Molecule(text)
         roles = gen.symbolize_weights(c, mol)
         cdfs = []
@@ -232,6 +291,9 @@ def run_case(case, g, tier, res):
         foreign = _foreign(smi)
         p0, _ = g.get_ensemble_prob(foreign, mol)
         c.prove(p0 == 0, "foreign molecule has probability 0", detail("a molecule outside the ensemble gets a positive probability"))
+        for kind_, s3 in VARIANTS.get((skel["name"], tuple(ns)), []):
+            p3, _ = g.get_ensemble_prob(s3, mol)
+            c.prove(p3 == 0, f"a molecule outside the ensemble has probability 0 ({kind_})", detail(f"a molecule outside the ensemble ({kind_}) gets a positive probability"))
         for s2 in renumberings(smi, 2 if tier == "quick" else 3):
             p2, _ = g.get_ensemble_prob(s2, mol)
             c.prove(p2 == p, "independent of atom order", detail(f"the value depends on the atom order of the SMILES"), fatal=False)
@@ -249,6 +311,25 @@ def replay(rp, gb):
     smi, ns = rp["smiles"], rp["ns"]
     p = gb.get_ensemble_prob(smi, mol)[0]
     label = rp["label"]
+    if label.startswith("a molecule outside the ensemble ("):
+        kind_ = label.split("(")[1].split(")")[0]
+        from symx import gen as _gen
+
+        import re as _re
+
+        # the obligation holds for every law (the check's CDF is uninterpreted); the replay uses a broad one, so that a window
+        # of probability zero in the written law cannot hide the value
+        text2 = _re.sub(r"\|[a-z_]+\([^)]*\)\|", "|gauss(100, 50)|", rp["text"])
+        plain = gb.Molecule(text2)
+        skel = [s_ for s_ in SKELS if s_["name"] == rp["skel"]][0]
+        generate_member(gb, plain, ns, skel)
+        got = [(k_, s_) for k_, s_ in outside_variants(gb, LAST_MEMBER[0], skel) if k_ == kind_]
+        if not got:
+            return False, "variant could not be rebuilt"
+        mol2 = gb.Molecule(text2)
+        gendrive.apply_role_values(gen, mol2, rp["weights"])
+        p3 = gb.get_ensemble_prob(got[0][1], mol2)[0]
+        return p3 != 0, f"{kind_} variant {got[0][1]} of the member {smi} for {text2}: reported probability {p3}"
     if label.startswith("a molecule outside the ensemble"):
         foreign = _foreign(smi)
         p0 = gb.get_ensemble_prob(foreign, mol)[0]
